@@ -5,10 +5,14 @@ use crate::{ConstantTimeSelect, Limb};
 use subtle::{Choice, ConditionallyNegatable, ConditionallySelectable};
 
 /// NOTE: can't impl `subtle`'s [`ConditionallySelectable`] trait due to its `Copy` bound
+///
+/// # Panics
+/// All three methods panic if the two operands have different precisions (also in release builds:
+/// selecting limb-wise between operands of different length would silently truncate one of them).
 impl ConstantTimeSelect for BoxedUint {
     #[inline]
     fn ct_select(a: &Self, b: &Self, choice: Choice) -> Self {
-        debug_assert_eq!(a.bits_precision(), b.bits_precision());
+        assert_eq!(a.bits_precision(), b.bits_precision());
         let mut limbs = vec![Limb::ZERO; a.nlimbs()].into_boxed_slice();
 
         for i in 0..a.nlimbs() {
@@ -20,7 +24,7 @@ impl ConstantTimeSelect for BoxedUint {
 
     #[inline]
     fn ct_assign(&mut self, other: &Self, choice: Choice) {
-        debug_assert_eq!(self.bits_precision(), other.bits_precision());
+        assert_eq!(self.bits_precision(), other.bits_precision());
 
         for i in 0..self.nlimbs() {
             self.limbs[i].conditional_assign(&other.limbs[i], choice);
@@ -29,7 +33,7 @@ impl ConstantTimeSelect for BoxedUint {
 
     #[inline]
     fn ct_swap(a: &mut Self, b: &mut Self, choice: Choice) {
-        debug_assert_eq!(a.bits_precision(), b.bits_precision());
+        assert_eq!(a.bits_precision(), b.bits_precision());
 
         for i in 0..a.nlimbs() {
             Limb::conditional_swap(&mut a.limbs[i], &mut b.limbs[i], choice);
